@@ -542,6 +542,10 @@ pub struct ExploreCfg {
     pub recheck_every: u64,
     /// keep (choices, observation hash) of every case (for cross-build comparisons)
     pub record_obs: bool,
+    /// when the property itself demands deterministic behaviour of the code under test: report a
+    /// case whose two executions differ as a violation with this signature (default: the run is
+    /// aborted as a machinery error, because nothing else it reports could be trusted)
+    pub nondeterminism_signature: Option<String>,
 }
 
 #[derive(Clone, Debug)]
@@ -992,8 +996,24 @@ fn handle_reply(
         g.stop = true;
     }
     if let Some(m) = mach {
-        g.res.machinery_errors.push(m);
-        g.stop = true;
+        match &cfg.nondeterminism_signature {
+            Some(sig) if m.starts_with("nondeterministic replay") => {
+                g.res.violations_total += 1;
+                if g.res.violations.len() < cfg.max_violations {
+                    g.res.violations.push(ViolationRec {
+                        choices: spec_choices(spec),
+                        sig: sig.clone(),
+                        detail: format!("two executions of the same case in different worker processes give different results ({m}); case: {desc}"),
+                        desc: desc.clone(),
+                        kind: "oracle",
+                    });
+                }
+            }
+            _ => {
+                g.res.machinery_errors.push(m);
+                g.stop = true;
+            }
+        }
     }
     if !r.violations.is_empty() {
         g.res.violations_total += r.violations.len() as u64;
